@@ -2,6 +2,7 @@ package world
 
 import (
 	"context"
+	"encoding/hex"
 	"fmt"
 	"strings"
 	"time"
@@ -90,7 +91,9 @@ func (c *Call) perNodeFn() func(*zsvc.Request, uint32) *zsvc.Request {
 			}
 		}
 		if spec.Distinct {
-			return &zsvc.Request{Value: distinctVal(in.GetValue(), id)}
+			r := &zsvc.Request{Value: distinctVal(in.GetValue(), id)}
+			r.ProtoReflect().SetUnknown(in.ProtoReflect().GetUnknown())
+			return r
 		}
 		return in
 	}
@@ -114,7 +117,12 @@ func (w *World) newCall(m *Mgr, ti, oi int, op *Op) *Call {
 		c.Req = &emptypb.Empty{}
 		c.ReqVal = ""
 	} else {
-		c.Req = &zsvc.Request{Value: c.ReqVal}
+		r := &zsvc.Request{Value: c.ReqVal}
+		if w.Cfg.Profile == "C13" {
+			r.ProtoReflect().SetUnknown(unknownFor(uint64(c.Tok)))
+			c.reqSuffix = "#u" + hex.EncodeToString(unknownFor(uint64(c.Tok)))
+		}
+		c.Req = r
 	}
 	switch info.Kind {
 	case "rpc", "ucast":
@@ -139,7 +147,7 @@ func (w *World) newCall(m *Mgr, ti, oi int, op *Op) *Call {
 		}
 		if !skip {
 			c.Targets = append(c.Targets, si)
-			c.Expect[si] = val
+			c.Expect[si] = val + c.reqSuffix
 		}
 	}
 	w.mu.Lock()
@@ -223,8 +231,12 @@ func (w *World) doCall(m *Mgr, ti, oi int, op *Op) *Call {
 	case "rpc", "qc", "mcast", "ucast":
 		c.DoneSeq, c.DoneStep = c.ReturnSeq, c.ReturnStep
 	}
+	rpcRet, _ := c.Ret.(*zsvc.Response)
 	w.events = append(w.events, Event{Seq: c.ReturnSeq, Step: w.step, Task: simrt.SelfName(), Kind: "return", Attr: fmt.Sprintf("tok=%d err=%q panic=%q", c.Tok, firstLine(c.ErrText), c.Panic)})
 	w.mu.Unlock()
+	if c.Info.Kind == "rpc" && rpcRet != nil {
+		checkReplyUnknown(rpcRet)
+	}
 	if c.Panic != "" {
 		return c
 	}
